@@ -557,6 +557,26 @@ Proof.
   - split; [split; [exact Hok|apply grow_refl]|exact HQ].
 Qed.
 
+(* the same with an invariant that may mention the table of get_literal_diffs *)
+Theorem pass3_invariant_m (Q : list (nat * list nat) -> lstate -> Prop) s root s' :
+  tables_ok P st s -> pass3 rc ord s root = Some s' ->
+  (forall m, get_literal_diffs (ls_g s) root = Some m -> Q m s) ->
+  (forall m s1 s2 nx, diffs_ok FOK (ls_g s) m -> tables_ok P st s1 -> grow (ls_g s) (ls_g s1) -> Q m s1 ->
+                      p3step m s1 s2 nx -> Q m s2) ->
+  exists m, get_literal_diffs (ls_g s) root = Some m /\ Q m s'.
+Proof.
+  intros Hok H HQ Hstep. unfold pass3 in H.
+  destruct (get_literal_diffs (ls_g s) root) as [m|] eqn:Em; [|discriminate].
+  exists m. split; [reflexivity|].
+  pose proof (get_literal_diffs_ok FOK _ _ _ (fun z l Hz => P_abs l (co_pos _ _ _ (proj1 Hok) z l Hz)) Em) as Hm.
+  apply (dfs_fold_invariant _ _ (fun s1 => (tables_ok P st s1 /\ grow (ls_g s) (ls_g s1)) /\ Q m s1)) in H; [exact (proj2 H)| |].
+  - intros s1 x s2 [[Hok1 Hg1] HQ1] Hb.
+    pose proof (pass3_body_step (ls_g s) m s1 x s2 Hm Hok1 Hg1 Hb) as Hst.
+    destruct (p3step_ok m s1 s2 x Hok1 Hst) as [Hok2 Hg2].
+    split; [split; [exact Hok2|exact (grow_trans _ _ _ Hg1 Hg2)]|]. exact (Hstep m s1 s2 x Hm Hok1 Hg1 HQ1 Hst).
+  - split; [split; [exact Hok|apply grow_refl]|now apply HQ].
+Qed.
+
 Theorem pass3_grow s root s' : tables_ok P st s -> pass3 rc ord s root = Some s' ->
   tables_ok P st s' /\ grow (ls_g s) (ls_g s').
 Proof.
